@@ -63,7 +63,7 @@ structure Inv (s : St) : Prop where
 
 theorem step_inv (c : Cfg) (s : St) (op : Op) (h : Inv s) : Inv (step c s op).1 := by
   obtain ⟨h1, h2, h3, h3', h4, h5, h6⟩ := h
-  cases op <;> simp only [step, spawn, stopBasic, ctlTransition, reapCtl, escalate]
+  cases op <;> simp only [step, spawn, stopBasic, ctlTransition, reapCtl, escalate, giveUp]
   all_goals (repeat' split)
   all_goals (refine ⟨?_, ?_, ?_, ?_, ?_, ?_, ?_⟩ <;> simp_all [not_mem_of_terminals_zero, Kind.basicLike])
 
@@ -112,7 +112,7 @@ theorem run_of_not_halts (c : Cfg) (k : Kind) (b : Beh) (ops : List Op) (h : (in
 /-! ### a carried-out KILL is remembered -/
 
 theorem step_killed_mono (c : Cfg) (s : St) (op : Op) (h : s.killed = true) : (step c s op).1.killed = true := by
-  cases op <;> simp only [step, spawn, stopBasic, ctlTransition, reapCtl, escalate]
+  cases op <;> simp only [step, spawn, stopBasic, ctlTransition, reapCtl, escalate, giveUp]
   all_goals (repeat' split)
   all_goals simp_all
 
@@ -185,7 +185,7 @@ theorem step_quiet (c : Cfg) (s : St) (op : Op) (hi : Inv s) (h : Quiet s)
   obtain ⟨h1, h2, h3, h3', h4, h5, h6⟩ := hi
   obtain ⟨q1, q2, q3, q4, q5⟩ := h
   cases hks : c.killStopsTimer <;>
-    cases op <;> simp only [step, spawn, stopBasic, ctlTransition, reapCtl, escalate]
+    cases op <;> simp only [step, spawn, stopBasic, ctlTransition, reapCtl, escalate, giveUp]
   all_goals (repeat' split)
   all_goals (refine ⟨?_, ?_, ?_, ?_, ?_⟩ <;>
     simp_all [killArmedIn, killArmed, killLive, St.alive, Kind.basicLike, nothingAfter_snoc])
@@ -290,7 +290,7 @@ structure Armed (s : St) : Prop where
 theorem step_armed (c : Cfg) (hc : c.killStopsTimer = true) (s : St) (op : Op) (h : Armed s) :
     Armed (step c s op).1 := by
   obtain ⟨a1, a2, a3⟩ := h
-  cases op <;> simp only [step, spawn, stopBasic, ctlTransition, reapCtl, escalate]
+  cases op <;> simp only [step, spawn, stopBasic, ctlTransition, reapCtl, escalate, giveUp]
   all_goals (repeat' split)
   all_goals (refine ⟨?_, ?_, ?_⟩ <;>
     simp_all [noRunningAfter_snoc, noRunningAfter_snoc_zero, noRunningAfter_of_terminals_zero, terminals_append,
@@ -347,7 +347,7 @@ theorem never_of_false (c : Cfg) (P : St → Op → Bool) (hP : ∀ s op, P s op
   · exact neverFrom_of_false c P hP _ ops
 
 theorem step_kind (c : Cfg) (s : St) (op : Op) : (step c s op).1.kind = s.kind := by
-  cases op <;> simp only [step, spawn, stopBasic, ctlTransition, reapCtl, escalate]
+  cases op <;> simp only [step, spawn, stopBasic, ctlTransition, reapCtl, escalate, giveUp]
   all_goals (repeat' split)
   all_goals simp_all
 
@@ -373,7 +373,7 @@ theorem neverFrom_of_kind (c : Cfg) (P : St → Op → Bool) (hP : ∀ s op, s.k
 /-! ### stuck exactly in the unsafe request states -/
 
 theorem step_stuck_iff (c : Cfg) (s : St) (op : Op) : (step c s op).2.stuck = unsafeReq c s op := by
-  cases op <;> simp only [step, spawn, stopBasic, ctlTransition, reapCtl, escalate, unsafeReq,
+  cases op <;> simp only [step, spawn, stopBasic, ctlTransition, reapCtl, escalate, giveUp, unsafeReq,
     stopUnreaped, stopChannelFull, killNoRpc, killInactive]
   all_goals (repeat' split)
   all_goals simp_all [Res.stuck]
@@ -427,7 +427,7 @@ theorem init_stuck (c : Cfg) (k : Kind) (b : Beh) (h : (init c k b).2.halts = tr
 
 theorem step_halts_active (c : Cfg) (s : St) (op : Op) (h : (step c s op).2.halts = true) : s.active = true := by
   revert h
-  cases op <;> simp only [step, spawn, stopBasic, ctlTransition, reapCtl, escalate]
+  cases op <;> simp only [step, spawn, stopBasic, ctlTransition, reapCtl, escalate, giveUp]
   all_goals (repeat' split)
   all_goals simp_all [Res.halts]
 
@@ -437,7 +437,7 @@ theorem step_surv (c : Cfg) (s : St) (op : Op) (hi : Inv s) (h : Surv s)
     (hl : killLive s op = false) (hh : killHelpers s op = false) : Surv (step c s op).1 := by
   obtain ⟨h1, h2, h3, h3', h4, h5, h6⟩ := hi
   unfold Surv at *
-  cases op <;> simp only [step, spawn, stopBasic, ctlTransition, reapCtl, escalate]
+  cases op <;> simp only [step, spawn, stopBasic, ctlTransition, reapCtl, escalate, giveUp]
   all_goals (repeat' split)
   all_goals simp_all [killLive, killHelpers, St.alive, Kind.basicLike]
 
@@ -503,7 +503,7 @@ structure Proc (s : St) : Prop where
 
 theorem step_proc (c : Cfg) (s : St) (op : Op) (h : Proc s) : Proc (step c s op).1 := by
   obtain ⟨p1, p2⟩ := h
-  cases op <;> simp only [step, spawn, stopBasic, ctlTransition, reapCtl, escalate]
+  cases op <;> simp only [step, spawn, stopBasic, ctlTransition, reapCtl, escalate, giveUp]
   all_goals (repeat' split)
   all_goals (refine ⟨?_, ?_⟩ <;> simp_all)
 
@@ -515,7 +515,7 @@ theorem init_proc (c : Cfg) (k : Kind) (b : Beh) : Proc (init c k b).1 := by
 /-- with the repaired ensureBasicTaskKilled no request to a basic task crashes or blocks the executor -/
 theorem step_basic_not_halts (c : Cfg) (hc : c.stopNilSafe = true) (s : St) (hk : s.kind = .basic) (op : Op) :
     (step c s op).2.halts = false := by
-  cases op <;> simp only [step, spawn, stopBasic, ctlTransition, reapCtl, escalate]
+  cases op <;> simp only [step, spawn, stopBasic, ctlTransition, reapCtl, escalate, giveUp]
   all_goals (repeat' split)
   all_goals simp_all [Res.halts, Kind.basicLike]
 
@@ -526,7 +526,7 @@ theorem step_stopFlag (c : Cfg) (hc : c.stopNilSafe = true) (s : St) (hk : s.kin
     (h : stopFlag flag op (step c s op).2 = true) : (step c s op).1.alive = false := by
   obtain ⟨p1, p2⟩ := hp
   revert h
-  cases op <;> simp only [step, spawn, stopBasic, ctlTransition, reapCtl, escalate]
+  cases op <;> simp only [step, spawn, stopBasic, ctlTransition, reapCtl, escalate, giveUp]
   all_goals (repeat' split)
   all_goals (cases flag <;> simp_all [stopFlag, stopSpares, St.alive, Kind.basicLike])
 
